@@ -17,15 +17,15 @@ import (
 func init() { runners["C05"] = runC05 }
 
 type c05Case struct {
-	Client   bool   `json:"client"`
-	Flate    int    `json:"flate"` // 0 off, 1 context takeover, 2 no context takeover
-	Writers  int    `json:"writers"`
-	Pingers  int    `json:"pingers"`
-	Closer   string `json:"closer"` // none | close | closenow | ctx
-	CloseAt  int    `json:"close_after_us"`
-	Split    int    `json:"transport_split"` // the transport delivers writes in pieces of this size (0 = whole) and yields between pieces
-	Seed     int64  `json:"seed"`
-	PeerIsLib bool  `json:"peer_is_library"`
+	Client    bool   `json:"client"`
+	Flate     int    `json:"flate"` // 0 off, 1 context takeover, 2 no context takeover
+	Writers   int    `json:"writers"`
+	Pingers   int    `json:"pingers"`
+	Closer    string `json:"closer"` // none | close | closenow | ctx
+	CloseAt   int    `json:"close_after_us"`
+	Split     int    `json:"transport_split"` // the transport delivers writes in pieces of this size (0 = whole) and yields between pieces
+	Seed      int64  `json:"seed"`
+	PeerIsLib bool   `json:"peer_is_library"`
 }
 
 // tagged payload: writer id, sequence number, length, crc of the body.
@@ -80,6 +80,15 @@ func (s *splitEnd) Write(p []byte) (int, error) {
 }
 
 func runC05Case(cc c05Case) (string, string) {
+	pb := &panicBox{}
+	sh, w := runC05CaseInner(cc, pb)
+	if m := pb.get(); m != "" {
+		return "panic-in-library-goroutine", fmt.Sprintf("%+v: %s", cc, m)
+	}
+	return sh, w
+}
+
+func runC05CaseInner(cc c05Case, pb *panicBox) (string, string) {
 	a, b := newPipe()
 	copts := websocket.VerifCopts{Enabled: cc.Flate != 0, ClientNoContextTakeover: cc.Flate == 2, ServerNoContextTakeover: cc.Flate == 2}
 	c := websocket.VerifNewConn(&splitEnd{a, cc.Split}, cc.Client, copts, 64)
@@ -99,6 +108,7 @@ func runC05Case(cc c05Case) (string, string) {
 		wg.Add(1)
 		go func(w int) {
 			defer wg.Done()
+			defer pb.guard()
 			for seq := 0; seq < perWriter; seq++ {
 				p := taggedMsg(w, seq, (w*53+seq*97)%700)
 				var err error
@@ -133,6 +143,7 @@ func runC05Case(cc c05Case) (string, string) {
 		wg.Add(1)
 		go func() {
 			defer wg.Done()
+			defer pb.guard()
 			for j := 0; j < 30; j++ {
 				pctx, pc := context.WithTimeout(wctx, 50*time.Millisecond)
 				err := c.Ping(pctx)
@@ -152,6 +163,7 @@ func runC05Case(cc c05Case) (string, string) {
 	readerDone := make(chan struct{})
 	go func() {
 		defer close(readerDone)
+		defer pb.guard()
 		for {
 			_, r, err := c.Reader(wctx)
 			if err != nil {
